@@ -795,7 +795,12 @@ impl Scanner for EntryScanner<'_> {
         // to be 0, i.e., the start of the buffer. This also means that write
         // will contain the length of the domain name assembled so far, so we
         // can easily check if it has gotten too long.
-        assert!(self.zonefile.buf.start > 0, "missing token prefix space");
+        //
+        // There is no such octet if the name follows a quoted token without
+        // any white space in between. Nobody writes that on purpose.
+        if self.zonefile.buf.start == 0 {
+            return Err(EntryError::bad_name());
+        }
         self.zonefile.buf.trim_to(self.zonefile.buf.start - 1);
         let mut write = 0;
 
@@ -915,7 +920,12 @@ impl Scanner for EntryScanner<'_> {
         // to be 0, i.e., the start of the buffer. This also means that write
         // will contain the length of the domain name assembled so far, so we
         // can easily check if it has gotten too long.
-        assert!(self.zonefile.buf.start > 0, "missing token prefix space");
+        //
+        // There is no octet to spare for the first length if the string
+        // follows a quoted token without any white space in between.
+        if self.zonefile.buf.start == 0 {
+            return Err(EntryError::bad_charstr());
+        }
         self.zonefile.buf.trim_to(self.zonefile.buf.start - 1);
         let mut write = 0;
 
